@@ -33,13 +33,14 @@ Reset ==
   /\ up' = [a \in Addrs |-> TRUE] /\ snap' = {}
   /\ succ' = [o \in Objs |-> 0] /\ fail' = [o \in Objs |-> 0]
   /\ idx' = 0 /\ econns' = {} /\ nconn' = 0 /\ nround' = 0 /\ ntog' = 0 /\ nhalf' = 0
+  /\ ref' = [a \in Addrs |-> FALSE] /\ cnt' = [o \in Objs |-> 0] /\ nref' = 0 /\ nclose' = 0
   /\ elast' = NoE
 
 SeqSet(s) == {s[i] : i \in 1..Len(s)}
 
 ConnVerdict(e) ==
   \* black box: a host is its address
-  IF /\ elast'.chosen # NoObj => oaddr[elast'.chosen] \in {oaddr[o] : o \in elast'.allowed} /\ e.established
+  IF /\ elast'.chosen # NoObj => oaddr[elast'.chosen] \in {oaddr[o] : o \in elast'.allowed} /\ (e.established \/ elast'.refused)
      /\ elast'.chosen = NoObj => elast'.allowed = {}
   THEN {} ELSE {"ConnToUsable"}
 
@@ -50,21 +51,29 @@ OpVerdict(e) ==
   IF {q[1] : q \in {x \in SeqSet(e.open) : x[2] \in Leaving}} \subseteq SeqSet(e.closedsofar)
   THEN {} ELSE {"EstablishedClosed"}
 
+\* the connection counts read from the real host objects (e.counts: per address, summed over the
+\* objects of that address) equal the relays that exist
+CountVerdict(e) ==
+  IF \A a \in Addrs : e.counts[a] = Cardinality({c \in econns' : oaddr'[c.o] = a})
+  THEN {} ELSE {"CountsAreRealConnections"}
+
 Note(v) == bad' = IF v = {} THEN bad ELSE Append(bad, [i |-> l, inv |-> v])
 
 TraceNext ==
   /\ l <= Len(TraceLog)
   /\ LET e == TraceLog[l] IN
        \/ e.op = "Reset" /\ Reset /\ bad' = bad
-       \/ e.op = "Add" /\ EAdd(e.a, e.t) /\ Note(OpVerdict(e))
-       \/ e.op = "Remove" /\ ERemove(e.a, e.t) /\ Note(OpVerdict(e))
-       \/ e.op = "ReplaceAll" /\ EReplace([a \in Addrs |-> e.f[a]]) /\ Note(OpVerdict(e))
+       \/ e.op = "Add" /\ EAdd(e.a, e.t) /\ Note(OpVerdict(e) \cup CountVerdict(e))
+       \/ e.op = "Remove" /\ ERemove(e.a, e.t) /\ Note(OpVerdict(e) \cup CountVerdict(e))
+       \/ e.op = "ReplaceAll" /\ EReplace([a \in Addrs |-> e.f[a]]) /\ Note(OpVerdict(e) \cup CountVerdict(e))
        \/ e.op = "Toggle" /\ Toggle(e.a) /\ bad' = bad
        \/ e.op = "Round" /\ Round /\ bad' = bad
+       \/ e.op = "Refuse" /\ SwitchRefuse(e.a) /\ bad' = bad
+       \/ e.op = "CloseConn" /\ (\E c \in econns : c.id = e.id /\ CloseConn(c)) /\ Note(CountVerdict(e))
        \/ e.op = "HalfClose" /\ (\E c \in econns : c.id = e.id /\ HalfClose(c, e.side)) /\ bad' = bad
        \/ /\ e.op = "Conn" /\ Conn
-          /\ IF elast'.chosen = NoObj THEN e.backend = 0 ELSE oaddr[elast'.chosen] = e.backend
-          /\ Note(ConnVerdict(e))
+          /\ IF elast'.chosen = NoObj \/ elast'.refused THEN e.backend = 0 ELSE oaddr[elast'.chosen] = e.backend
+          /\ Note(ConnVerdict(e) \cup CountVerdict(e))
   /\ l' = l + 1
 
 TraceSpec == TraceInit /\ [][TraceNext]_tvars
